@@ -172,12 +172,43 @@ class Intervals:
                     if v is not None and v[0] == v[1]:
                         return v[0]
                 return None
+            crange = None
             if A['k'] in ('copy', 'move') and not A['p']['p'] and self.root(A['p']['l']) == rl and single(B) is not None:
                 c = single(B)
             elif B['k'] in ('copy', 'move') and not B['p']['p'] and self.root(B['p']['l']) == rl and single(A) is not None:
                 c = single(A)
                 op = {'Lt': 'Gt', 'Le': 'Ge', 'Gt': 'Lt', 'Ge': 'Le', 'Eq': 'Eq', 'Ne': 'Ne'}[op]
+            elif A['k'] in ('copy', 'move') and not A['p']['p'] and self.root(A['p']['l']) == rl and B['k'] in ('copy', 'move') \
+                    and not B['p']['p'] and self.root(B['p']['l']) != rl:
+                crange = self.local(B['p']['l'], (rl, l))
+                c = None
+            elif B['k'] in ('copy', 'move') and not B['p']['p'] and self.root(B['p']['l']) == rl and A['k'] in ('copy', 'move') \
+                    and not A['p']['p'] and self.root(A['p']['l']) != rl:
+                crange = self.local(A['p']['l'], (rl, l))
+                c = None
+                op = {'Lt': 'Gt', 'Le': 'Ge', 'Gt': 'Lt', 'Ge': 'Le', 'Eq': 'Eq', 'Ne': 'Ne'}[op]
             else:
+                continue
+            if c is None:
+                if crange is None:
+                    continue
+                # relational guard against a value known only by its range: x < y implies x <= hi(y) - 1, etc.
+                vals = q.edge_value(body, a, s)
+                truth = q.bool_outcome(body, a, vals)
+                if truth is None:
+                    continue
+                if not truth:
+                    op = {'Lt': 'Ge', 'Le': 'Gt', 'Gt': 'Le', 'Ge': 'Lt', 'Eq': 'Ne', 'Ne': 'Eq'}[op]
+                if op == 'Lt':
+                    hi = min(hi, crange[1] - 1)
+                elif op == 'Le':
+                    hi = min(hi, crange[1])
+                elif op == 'Gt':
+                    lo = max(lo, crange[0] + 1)
+                elif op == 'Ge':
+                    lo = max(lo, crange[0])
+                elif op == 'Eq':
+                    lo, hi = max(lo, crange[0]), min(hi, crange[1])
                 continue
             vals = q.edge_value(body, a, s)
             truth = q.bool_outcome(body, a, vals)
